@@ -300,6 +300,7 @@ class Loader(importlib.abc.MetaPathFinder, importlib.abc.Loader):
     def reset_for_path(self):
         from . import fs
         fs.FSYS.reset()
+        npx.STATE["lazy"] = False
 
 
 _loader = None
